@@ -319,7 +319,27 @@ int main(int argc, char **argv) {
             else if(!strcmp(t[3], "rwc")) fl = O_RDWR | O_CREAT;
             else if(!strcmp(t[3], "wo")) fl = O_WRONLY;
             else if(!strcmp(t[3], "wa")) fl = O_WRONLY | O_APPEND;
-            int fd = open(t[2], fl, 0644);
+            int fd;
+            if(!strcmp(t[3], "pipe")) {
+                /* the file's bytes, all queued in a pipe before the library sees the read end (deterministic: no short reads) */
+                size_t l;
+                char a[600];
+                snprintf(a, sizeof(a), "f:%s", t[2]);
+                char *d = get_data(a, &l);
+                int pfd[2];
+                if(pipe(pfd) < 0) die("pipe", NULL);
+                if(fcntl(pfd[1], F_SETPIPE_SZ, (int)l + 65536) < (int)l) die("pipe too small for", t[2]);
+                size_t done = 0;
+                while(done < l) {
+                    ssize_t w = real_write(pfd[1], d + done, l - done);
+                    if(w <= 0) die("pipe fill", NULL);
+                    done += w;
+                }
+                close(pfd[1]);
+                free(d);
+                fd = pfd[0];
+            } else
+                fd = open(t[2], fl, 0644);
             if(fd < 0) die("fopen failed", t[2]);
             fds[s] = fd;
             io_register(fd, t[4] ? t[4] : "file");
